@@ -24,17 +24,24 @@ theorem classOfIpProto_mem (t : Nat) (c : String) (h : Tags.classOfIpProto t = s
     have hall : ∀ q ∈ Gen.Tags.ipProtoToClass, q.2 ∈ protoNames := by decide
     rw [← h]; exact hall p hm
 
-theorem protoTier_of_name (y : AnyObj) (h : y.info.1 ∈ protoNames) (hc : Coverable y) : ProtoTier y := by
+/-- no entry of the Wifi family and no class of the App family is a name the IP protocol dispatch constructs -/
+theorem protoNames_wifi : ∀ c ∈ Wifi.classes, c ∉ protoNames := by decide
+theorem protoNames_app : ∀ c ∈ App.classes, c ∉ protoNames := by decide
+
+theorem protoTier_of_name (y : AnyObj) (c : String) (hy : EntryName c y) (h : c ∈ protoNames) (hc : Coverable y) :
+    ProtoTier y := by
   cases y with
   | raw p => exact hc.elim
-  | app o => exact hc.elim
-  | wifi o => exact hc.elim
+  | app o => exact absurd h (protoNames_app c (app_entry_names c o hy))
+  | wifi o => exact absurd h (protoNames_wifi c (wifi_entry_names c o hy hc))
   | ip o => trivial
   | ip6 o => trivial
   | tr o => trivial
   | icmp o => trivial
   | l2 z =>
     exfalso
+    have hn := entryName_eq hy (fun _ e => by cases e)
+    rw [← hn] at h
     simp only [protoNames, List.mem_cons, List.mem_nil_iff, or_false] at h
     rcases h with h | h | h | h | h | h | h | h <;> exact L2.no_l2_named _ (by decide) z h
 
@@ -63,7 +70,7 @@ theorem ip4_dispatch_link (o : Ip.Ip4) (pl : Bytes) : LinkInnerA (.ip (.ip o)) (
       refine ⟨rfl, protoNames_not_raw hm, ?_⟩
       intro y r hy hcov _
       simp only [LinkAll, nextA_cons_of_not_raw y r (coverable_not_raw y hcov)]
-      exact ⟨hf', protoTier_of_name y (by rw [hy]; exact hm) hcov⟩
+      exact ⟨hf', protoTier_of_name y c hy hm hcov⟩
 
 theorem ip4_parse_linkA (b : Bytes) (o : Ip.Ip4) (i : Inner) (h : Ip.Ip4.parse b = .ok (o, i)) :
     LinkInnerA (.ip (.ip o)) i := by
@@ -96,7 +103,7 @@ theorem ah_parse_linkA (b : Bytes) (a : Ip.Ah) (i : Inner) (h : Ip.Ah.parse b = 
         refine ⟨rfl, protoNames_not_raw hm, ?_⟩
         intro y r hy hcov _
         simp only [LinkAll, nextA_cons_of_not_raw y r (coverable_not_raw y hcov)]
-        exact protoTier_of_name y (by rw [hy]; exact hm) hcov
+        exact protoTier_of_name y c hy hm hcov
     · injection h with h; injection h with ho hi
       subst ho; subst hi
       trivial
